@@ -195,6 +195,54 @@ def correspond(ctx, scale):
                 dist['codebook_grads'] += 1
         if len(samples) < 3:
             samples.append(dict(kw=kw, jacobian_block=J[0, 0, :, 0, 0, :].tolist()))
+    # ------------------------------------------------------------------ NEARLY ANTIPODAL tokens (round 10, seed C07-j): the reflection axis of the rotation trick is
+    # l2norm(x^ + q^); when a token points almost (not exactly) away from its code that sum is short - 1e-1 down to 1e-4 - and must still be normalised to
+    # unit length (the library's floor is 1e-6).  One or two codes, the second one far away on the same side so that the first stays the nearest.
+    TOL_ANTI = Fraction(1, 50)       # conditioning: the axis direction carries a float32 error of 6e-8 / |x^ + q^| <= 6e-4, the Jacobian four times that
+    import math as _math
+    for ai, delta in enumerate([1e-1, 1e-2, 1e-3, 5e-4, 3e-4, 2e-4, 1e-4] * (1 if not ctx.thorough else 3)):
+        d = [2, 3][ai % 2]
+        K = [1, 2][(ai // 2) % 2]
+        vq = VectorQuantize(dim=d, codebook_size=K, rotation_trick=True, commitment_weight=1.0)
+        vq.train()
+        c0 = torch.zeros(d)
+        c0[0], c0[1] = 0.8, 0.6                         # a unit code
+        with torch.no_grad():
+            vq._codebook.embed[0, 0].copy_(c0)
+            if K == 2:
+                vq._codebook.embed[0, 1].copy_(5.0 * c0)
+        perp = torch.zeros(d)
+        perp[0], perp[1] = -0.6, 0.8
+        scale_x = [0.25, 1.0, 3.0][ai % 3]
+        ang = _math.pi - delta * (1 + ai // 7)
+        x = (scale_x * (_math.cos(ang) * c0 + _math.sin(ang) * perp)).reshape(1, 1, d)
+        try:
+            J = jacobian(lambda inp: vq(inp, freeze_codebook=True)[0], x)
+            out, idx, _ = vq(x, freeze_codebook=True)
+        except Exception as ex:
+            fail(f'vq:antipodal:exception:{type(ex).__name__}', f'nearly antipodal token, delta {delta}: {ex!r}', dict(delta=delta, antipodal=True))
+            continue
+        ev += 1
+        nt += 1
+        dist['nearly_antipodal_jacobians'] = dist.get('nearly_antipodal_jacobians', 0) + 1
+        if int(idx.reshape(-1)[0]) != 0:
+            fail('vq:antipodal:setup', f'delta {delta}: the token is not assigned to code 0', dict(delta=delta, antipodal=True))
+            continue
+        xv = x[0, 0].double().tolist()
+        qv = vq._codebook.embed[0, 0].double().tolist()
+        for k in range(d):
+            col = J[0, 0, :, 0, 0, k].double().tolist()
+            dx = [1.0 if j == k else 0.0 for j in range(d)]
+            cases.append(f'tangent_check {qlit(TOL_ANTI)} true true true {qlit(Fraction(0))} {qvec(xv)} {qvec(qv)} {qvec(dx)} {qvec(col)}')
+            meta.append(dict(kind='vq-jacobian-column-nearly-antipodal', kw=dict(dim=d, codebook_size=K, delta=delta, scale=scale_x), token=(0, 0), head=0, k=k))
+            dist['jacobian_columns'] += 1
+        # the property as stated, directly: J^T J = (|q| / |x|)^2 I  (a norm-ratio scaled rotation)
+        Jm = J[0, 0, :, 0, 0, :].double()
+        ratio2 = float((torch.tensor(qv).norm() / torch.tensor(xv).norm()) ** 2)
+        dev = float(((Jm.T @ Jm) / ratio2 - torch.eye(d, dtype=torch.float64)).abs().max())
+        if not dev <= 0.02:
+            fail(f'vq:antipodal:not-a-scaled-rotation:delta={delta}', f'VectorQuantize(dim={d}, codebook_size={K}) token at angle pi - {delta} from its code: J^T J / ratio^2 differs from I by {dev:.3g} '
+                 '(the rotation trick must be a norm-ratio scaled rotation)', dict(delta=delta, antipodal=True, dim=d, K=K))
     # ------------------------------------------------------------------ EMA-maintained codebook that is a Parameter (orthogonal regularisation on):
     # the orthogonality penalty may send gradient into it, the commitment term must not ("EMA-maintained ... codebooks receive no gradient" from it)
     for oi_ in range(4 if not ctx.thorough else 16):
